@@ -8,6 +8,12 @@ Definition ew_batch_max : N := 100.         (* PopMultiple argument, default bra
 Definition ew_drain_on_done : bool := true.  (* done branch drains the buffer before returning *)
 Definition ew_drain_batch_max : N := 100.   (* PopMultiple argument, drain loop *)
 Definition ew_release_sticky : bool := true. (* ReleaseGoroutines sets a flag, before Broadcast, on which PopMultiple returns instead of waiting *)
+(* producer side, WriteEvent / WriteEventWithTimestamp: the hand-over to the batching loop *)
+Definition ew_pub_single_send : bool := true.   (* exactly one send statement on toBatchMessagesChan in writer.go, and it is in WriteEventWithTimestamp *)
+Definition ew_pub_plain_send : bool := true.    (* every such send is a plain statement: not a select case, not under go / defer, not in a loop, not in a stored closure *)
+Definition ew_pub_no_select : bool := true.     (* no select statement in WriteEvent / WriteEventWithTimestamp *)
+Definition ew_pub_no_go : bool := true.         (* no go statement in WriteEvent / WriteEventWithTimestamp; WriteEvent calls WriteEventWithTimestamp synchronously *)
+Definition ew_pub_convert_first : bool := true. (* the value sent is the local assigned, before the send, from the conversion internalEventToKafkaEvent ; kafkaEventToKafkaMessage *)
 (* key source per case of the type switch in internalEventToKafkaEvent:
    0 = no key, 1 = e.Taskid, 2 = extractAndConvertEnvID(e).  Kinds: 0=Ev_MetaEvent_CoreStart 1=Ev_MetaEvent_MesosHeartbeat 2=Ev_MetaEvent_FrameworkEvent 3=Ev_TaskEvent 4=Ev_RoleEvent 5=Ev_EnvironmentEvent 6=Ev_CallEvent 7=Ev_IntegratedServiceEvent 8=Ev_RunEvent *)
 Definition ew_key_table : list (N * N) := [(0, 0); (1, 0); (2, 0); (3, 1); (4, 2); (5, 2); (6, 2); (7, 2); (8, 2)].
